@@ -47,9 +47,17 @@ def synth(spec):
     ff = spec["ff"]
     p = spec.get("p", {})
     nch = p.get("nchains") or rng.choice([1, 1, 2, 2, 3, 4])
+    if p.get("seqs"):
+        nch = len(p["seqs"])
     chains = []
     kinds = []
     for c in range(nch):
+        if p.get("seqs"):
+            seq = p["seqs"][c]
+            hyd = rng.choice(p.get("hydrogens", ["none", "none", "all", "side"]))
+            chains.append(S.peptide(seq, rng, hydrogens=hyd, cterm_oxt=rng.random() < p.get("oxt_prob", 0.8)))
+            kinds.append("aa")
+            continue
         na_ok = NA_FFS.get(ff) if p.get("na", True) else None
         if na_ok and rng.random() < p.get("na_prob", 0.15):
             dna = na_ok == "both" and rng.random() < 0.5
@@ -162,6 +170,29 @@ def frag(spec):
     items, truth = S.assemble(entries)
     damage(items, truth, rng, p.get("damage_prob", 0.0))
     return {"text": pdbfmt.to_text(items), "truth": truth, "items": items, "meta": {"src": src, "nwin": len(used)}}
+
+
+ALL_NAMES = list(topo.AMINO) + sorted(topo.VARIANTS)
+
+
+def lattice_cases(seed, ffs=FFS, per_structure=4, opts_fn=None, names=None, p=None):
+    """Every (input residue name x chain position N/I/C) cell under every force field: chains of three residues
+    X-Y-Z where each name visits each position once (Latin-square rotation), packed `per_structure` chains per run."""
+    names = list(names or ALL_NAMES)
+    rng = random.Random(seed * 104729 + 7)
+    out = []
+    n = len(names)
+    for fi, ff in enumerate(ffs):
+        order = names[:]
+        rng.shuffle(order)
+        a, b = 1 + rng.randrange(n - 1), 1 + rng.randrange(n - 1)
+        chains = [[order[i], order[(i + a) % n], order[(i + a + b) % n]] for i in range(n)]
+        for k in range(0, len(chains), per_structure):
+            spec = {"w": "synth", "seed": seed * 1000003 + fi * 1000 + k, "ff": ff,
+                    "p": dict(p or {}, seqs=chains[k:k + per_structure], waters=[0], dense_prob=0.0), "lattice": True}
+            spec["opts"] = opts_fn(rng, spec) if opts_fn else [f"--ff={ff}"]
+            out.append(spec)
+    return out
 
 
 def materialise(spec):
